@@ -141,7 +141,7 @@ def trace_validate(spec, shard_files, wd, timeout=None, xmx="2g"):
         env.pop("JAVA_TOOL_OPTIONS", None)
         md = os.path.join(wd, "md%d" % i)
         cmd = java_cmd(xmx, ["-Dtlc2.tool.queue.IStateQueue=StateDeque"]) + [
-            "-workers", "1", "-metadir", md, "-cleanup", "-noGenerateSpecTE", "-config", spec + ".cfg", spec + ".tla"]
+            "-workers", "1", "-checkpoint", "0", "-metadir", md, "-cleanup", "-noGenerateSpecTE", "-config", spec + ".cfg", spec + ".tla"]
         jobs.append((cmd, env, sh + ".out", timeout))
     t0 = time.time()
     res = _tlc_procs(jobs, MAX_JVMS)
